@@ -3,7 +3,7 @@ CONSTANTS
   NP = 2
   NS = 2
   MaxLayers = 2
-  MaxSteps = 6
+  MaxSteps = 5
   InitLayer = FALSE
   RangeChoices <- MC_Ranges4a
   SkipChoices <- MC_Skips22a
